@@ -259,6 +259,11 @@ func vH_C07(data []byte, obj bool) {
 	}
 	ws := vSkipWS(data, 0)
 	end, ok := vRefSkip(data)
+	if _, okDeep := vRefSkipDeep(data); okDeep && !ok {
+		// well-formed but nested beyond the limit: outside this property (the handler machines
+		// have no nesting limit of their own; C10 covers totality there)
+		return
+	}
 	isCont := ok && data[ws] == open
 	isNull := ok && data[ws] == 'n'
 	h := &vHandler{whole: data}
@@ -944,10 +949,14 @@ func vH_C15(a []byte, b []byte, w1 int, w2 int) {
 	}
 }
 
-// three calls: A, then B (possibly failing), then C compared with fresh
+// three calls: A, then B (possibly failing), then C compared with fresh; A's result must survive
 func vH_C15_three(a []byte, b []byte, c []byte, w1, w2, w3 int) {
 	var r ValueReader
-	vReaderCall(w1, &r, a)
+	g1, _, e1 := vReaderCall(w1, &r, a)
+	var want1 interface{}
+	if e1 == nil {
+		want1, _, _ = vRefDecode(a, vSkipWS(a, 0))
+	}
 	vReaderCall(w2, &r, b)
 	g3, p3, e3 := vReaderCall(w3, &r, c)
 	var fresh ValueReader
@@ -957,6 +966,13 @@ func vH_C15_three(a []byte, b []byte, c []byte, w1, w2, w3 int) {
 	if e3 == nil && fe3 == nil {
 		vAssert(p3 == fp3, "C15.3.same-offset")
 		vAssert(vTreeEq(g3, f3), "C15.3.same-tree")
+	}
+	if e1 == nil {
+		vAssert(vTreeEq(g1, want1), "C15.3.first-result-unchanged")
+		if e3 == nil {
+			vMutate(g3)
+			vAssert(vTreeEq(g1, want1), "C15.3.first-result-unchanged-after-mutation")
+		}
 	}
 }
 
@@ -1140,10 +1156,13 @@ func vClobber(b []byte) {
 	}
 }
 
-func vH_C16_owned(data []byte) {
+func vH_C16_owned(data []byte, bufcap int) {
 	vReach("C16.owned")
 	work := vClone(data)
-	buf := make([]byte, 1, 4)
+	var buf []byte
+	if bufcap > 0 {
+		buf = make([]byte, 1, bufcap)
+	}
 	s, _, err := ReadString(work, &buf)
 	want, _, rok := vRefReadString(data, nil)
 	var r ValueReader
@@ -1417,4 +1436,80 @@ func vH_C20(small []byte, big []byte, which int) {
 	c2 := vC20Cost(which, h, big)
 	vReach("C20.marginal")
 	vAssertCost(c2-c1 <= vC20A*(len(big)-len(small))+vC20B, "C20.marginal-cost-linear")
+}
+
+// ---- C13: readers are type-exclusive -----------------------------------------
+func vH_C13_exclusive(data []byte) {
+	tt, _, terr := NextTokenType(data)
+	vReach("C13.exclusive")
+	okType := func(want TokenType) bool { return terr == nil && tt == want }
+	if _, _, err := ReadBool(data); err == nil {
+		vAssert(okType(TrueType) || okType(FalseType), "C13.bool-only-on-bool")
+	}
+	if _, err := ReadNull(data); err == nil {
+		vAssert(okType(NullType), "C13.null-only-on-null")
+	}
+	if _, _, err := ReadString(data, nil); err == nil {
+		vAssert(okType(StringType), "C13.string-only-on-string")
+	}
+	if _, _, err := ReadStringBytes(data, nil); err == nil {
+		vAssert(okType(StringType), "C13.stringbytes-only-on-string")
+	}
+	if _, _, err := ReadInt64(data); err == nil {
+		vAssert(okType(NumberType), "C13.int64-only-on-number")
+	}
+	if _, _, err := ReadUint64(data); err == nil {
+		vAssert(okType(NumberType), "C13.uint64-only-on-number")
+	}
+	if _, _, err := ReadInt32(data); err == nil {
+		vAssert(okType(NumberType), "C13.int32-only-on-number")
+	}
+	if _, _, err := ReadUint32(data); err == nil {
+		vAssert(okType(NumberType), "C13.uint32-only-on-number")
+	}
+	if _, _, err := ReadInt(data); err == nil {
+		vAssert(okType(NumberType), "C13.int-only-on-number")
+	}
+	if _, _, err := ReadUint(data); err == nil {
+		vAssert(okType(NumberType), "C13.uint-only-on-number")
+	}
+	if _, _, err := ReadFloat64(data); err == nil {
+		vAssert(okType(NumberType), "C13.float-only-on-number")
+	}
+	if _, _, err := ReadObject(data); err == nil {
+		vAssert(okType(ObjectStartType), "C13.object-only-on-object")
+	}
+	if _, _, err := ReadArray(data); err == nil {
+		vAssert(okType(ArrayStartType), "C13.array-only-on-array")
+	}
+}
+
+// ---- C04: every API that decodes numbers to float64 gives ReadFloat64's value ------------
+func vH_C04_api(data []byte) {
+	f, p, err := ReadFloat64(data)
+	if err != nil {
+		return
+	}
+	vReach("C04.api-number")
+	v, pv, errv := ReadValue(data)
+	vAssert(errv == nil && pv == p, "C04.api-readvalue-accepts")
+	if errv == nil {
+		g, ok := v.(float64)
+		vAssert(ok, "C04.api-readvalue-type")
+		if ok {
+			vAssert(vFloatSame(g, f), "C04.api-readvalue-same-bits")
+		}
+	}
+	var d float64 = 1
+	pd, errd := DecodeFloat64(data, &d)
+	vAssert(errd == nil && pd == p, "C04.api-decode-accepts")
+	if errd == nil {
+		vAssert(vFloatSame(d, f), "C04.api-decode-same-bits")
+	}
+	var r ValueReader
+	arr, _, erra := r.ReadArray(append(append([]byte{'['}, data[:p]...), ']'))
+	if erra == nil && len(arr) == 1 {
+		g, ok := arr[0].(float64)
+		vAssert(ok && vFloatSame(g, f), "C04.api-array-leaf-same-bits")
+	}
 }
